@@ -301,3 +301,11 @@ package network
 //@     invariant [others] forall t :: 0 <= t && t < len(biases) && (forall i :: 0 <= i && i < len(nList) ==> neuronLookup[nList[i].Id] != t) ==> biases[t] == old(biases[t])
 //@     invariant [frame] forall b :: b != base(biases) ==> Mem[float64][b] == old(Mem[float64][b])
 //@     invariant [connFrame] forall b :: wasAllocated(b) ==> Mem[*FastNetworkLink][b] == old(Mem[*FastNetworkLink][b])
+
+// ---- C06 (modules): a link copy joins exactly the two nodes it is given ------------------------------------
+//@ func NewLinkCopy
+//@   props C06
+//@   mode nosafety
+//@   requires l != nil
+//@   modifies nothing
+//@   ensures [joins] result != nil && fresh(result) && result.InNode == inputNode && result.OutNode == outNode && result.ConnectionWeight == l.ConnectionWeight && result.IsRecurrent == l.IsRecurrent
